@@ -637,8 +637,12 @@ ipc_ep_close(void *arg)
 	NNI_LIST_FOREACH (&ep->nego_pipes, p) {
 		nni_pipe_close(p->pipe);
 	}
-	NNI_LIST_FOREACH (&ep->wait_pipes, p) {
+	// a pipe that finished negotiating but was never matched with an accept
+	// still carries its creator's reference: drop it with the close
+	while ((p = nni_list_first(&ep->wait_pipes)) != NULL) {
+		nni_list_remove(&ep->wait_pipes, p);
 		nni_pipe_close(p->pipe);
+		nni_pipe_rele(p->pipe);
 	}
 	nni_mtx_unlock(&ep->mtx);
 }
